@@ -12,7 +12,7 @@ variable {α : Type} (E : RodasEnv α)
 @[simp] theorem abandon_fields (s : RodasState α) (le : Option α) :
     (E.abandon s le).T = s.T ∧ (E.abandon s le).te = s.te ∧ (E.abandon s le).ie = s.ie ∧
     (E.abandon s le).t = s.t ∧ (E.abandon s le).told = s.told ∧ (E.abandon s le).stop = s.stop := by
-  unfold abandon; cases le <;> simp
+  unfold abandon; simp
 
 /-- no component passes the direction filter ⇒ the event block leaves the state alone -/
 theorem eventLoop_no_detect (dt : α) (vo vn : List α) (ff : List Nat) (s : RodasState α)
@@ -134,11 +134,37 @@ theorem eventLoop_counters (dt : α) (vo vn : List α) (ff : List Nat) (s : Roda
     split
     · exact ih s
     · split
-      · unfold abandon; split <;> simp
+      · unfold abandon; simp
       · split
         · simp [terminate, register]
         · have := ih (register s (E.locate dt s (vo.getD i E.O.zero) (vn.getD i E.O.zero) i).1 i)
           simpa [register] using this
+
+/-- the event block never changes the event values it was entered with -/
+theorem eventLoop_value (dt : α) (vo vn : List α) (ff : List Nat) (s : RodasState α) :
+    (E.eventLoop dt vo vn ff s).value = s.value := by
+  induction ff generalizing s with
+  | nil => simp [eventLoop]
+  | cons i rest ih =>
+    simp only [eventLoop]
+    split
+    · exact ih s
+    · split
+      · unfold abandon; rfl
+      · split
+        · simp [terminate, register]
+        · have := ih (register s (E.locate dt s (vo.getD i E.O.zero) (vn.getD i E.O.zero) i).1 i)
+          simpa [register] using this
+
+/-- after the event block `value` holds the event functions at the end of the step just taken (the next step compares with these),
+whichever way the block was left: nothing detected, events recorded, a terminal event, or an event abandoned within `event_duration` -/
+theorem doEvents_value (dt : α) (s : RodasState α) :
+    (E.doEvents dt s).value = if E.events.isEmpty then s.value else E.evalEvents s.t := by
+  unfold doEvents
+  split
+  · rfl
+  · simp only []
+    rw [eventLoop_value]
 
 theorem doEvents_counters (dt : α) (s : RodasState α) :
     (E.doEvents dt s).nstep = s.nstep ∧ (E.doEvents dt s).reject = s.reject ∧ (E.doEvents dt s).nreject = s.nreject := by
